@@ -914,6 +914,93 @@ func c07DecisionTree(s *source, e *emitter, rel, goName string, lit int, leanNam
 	e.stringList(leanName+"Atoms", "the source text of the atoms of `"+leanName+"`, in parameter order", atomSrc)
 }
 
+// c07AllocType emits the inductive type describing where the value of a constructor's field comes from (once).
+func c07AllocType(e *emitter) {
+	e.printf(`/-- where the value a constructor puts into a field comes from (extract/c07.go c07Allocs) -/
+inductive Alloc
+  | fresh (callee : String)   -- a call evaluated at every construction (make, new, NewSingleFlight(), …) or a literal
+  | param (i : Nat)           -- the i-th parameter of the constructor: the caller's object
+  | global (name : String)    -- a package-level variable: ONE object shared by everything the constructor ever builds
+  | other (src : String)
+  deriving DecidableEq, Repr
+
+`)
+}
+
+// c07Allocs emits `(field, Alloc)` for every field of the (first) composite literal of type typ in goName.
+func c07Allocs(s *source, e *emitter, rel, goName, typ, leanName string) {
+	fd := s.findFunc(rel, goName)
+	var out []string
+	found := false
+	if fd != nil {
+		params := map[string]int{}
+		n := 0
+		for _, f := range fd.Type.Params.List {
+			for _, nm := range f.Names {
+				params[nm.Name] = n
+				n++
+			}
+		}
+		locals := map[string]bool{}
+		ast.Inspect(fd.Body, func(nd ast.Node) bool {
+			switch x := nd.(type) {
+			case *ast.AssignStmt:
+				if x.Tok == token.DEFINE {
+					for _, l := range x.Lhs {
+						if id, ok := l.(*ast.Ident); ok {
+							locals[id.Name] = true
+						}
+					}
+				}
+			case *ast.ValueSpec:
+				for _, nm := range x.Names {
+					locals[nm.Name] = true
+				}
+			}
+			return true
+		})
+		ast.Inspect(fd.Body, func(nd ast.Node) bool {
+			cl, ok := nd.(*ast.CompositeLit)
+			if !ok || found || cl.Type == nil || s.src(cl.Type) != typ {
+				return true
+			}
+			found = true
+			for _, el := range cl.Elts {
+				kv, ok := el.(*ast.KeyValueExpr)
+				if !ok {
+					out = append(out, "("+leanString("?")+", .other "+leanString(s.src(el))+")")
+					continue
+				}
+				a := ".other " + leanString(s.src(kv.Value))
+				switch v := kv.Value.(type) {
+				case *ast.CallExpr:
+					a = ".fresh " + leanString(s.src(v.Fun))
+				case *ast.CompositeLit:
+					a = ".fresh " + leanString("literal")
+				case *ast.UnaryExpr:
+					if _, isLit := v.X.(*ast.CompositeLit); isLit && v.Op == token.AND {
+						a = ".fresh " + leanString("literal")
+					}
+				case *ast.Ident:
+					if i, ok := params[v.Name]; ok {
+						a = fmt.Sprintf(".param %d", i)
+					} else if !locals[v.Name] && v.Name != "nil" && v.Name != "true" && v.Name != "false" {
+						a = ".global " + leanString(v.Name)
+					}
+				}
+				out = append(out, "("+leanString(s.src(kv.Key))+", "+a+")")
+			}
+			return false
+		})
+	}
+	if !found {
+		e.errors = append(e.errors, "composite literal "+typ+" not found in "+goName+" ("+rel+")")
+		out = []string{"(" + leanString("MISSING") + ", .other " + leanString("MISSING") + ")"}
+	}
+	e.printf("/-- where the fields of the `%s` literal in `%s` (%s) come from -/\ndef %s : List (String × Alloc) := [%s]\n\n",
+		typ, goName, rel, leanName, strings.Join(out, ",\n  "))
+}
+
 func init() {
 	register("C07", func(s *source, e *emitter) {
 		const sf = "core/syncx/singleflight.go"
@@ -981,6 +1068,13 @@ func init() {
 		c07Uses(s, e, "core/stores/mon/clientmanager.go", "clientManager.", "monClientManagerUses")
 		c07VarInits(s, e, "core/stores/sqlx/sqlmanager.go", "NewResourceManager", "sqlxConnManagerVar")
 		c07Uses(s, e, "core/stores/sqlx/sqlmanager.go", "GetResource", "sqlxConnManagerUses")
+		// round 5e: allocation sites of the constructors' fields (fresh per construction / the caller's / package-level)
+		c07AllocType(e)
+		c07Allocs(s, e, sf, "NewSingleFlight", "flightGroup", "newSingleFlightAllocs")
+		c07Allocs(s, e, lc, "NewLockedCalls", "lockedGroup", "newLockedCallsAllocs")
+		c07Allocs(s, e, rm, "NewResourceManager", "ResourceManager", "newResourceManagerAllocs")
+		c07Allocs(s, e, "core/collection/cache.go", "NewCache", "Cache", "newCacheAllocs")
+		c07Allocs(s, e, "core/stores/cache/cachenode.go", "NewNode", "cacheNode", "newNodeAllocs")
 		// round 5: the order of effects as typed lists
 		c07EffType(e)
 		c07Effects(s, e, sf, "flightGroup.createCall", "createCallEffects")
